@@ -37,6 +37,7 @@ Inductive case :=
        (hazard clean_ok : bool)
 (** [put_*_subtree_roots] with the chain's own roots: the ledger must not change *)
 | CRoots (pre : w3) (res : outcome unit perr) (post : w3) (roots_ok wit_ok : bool) (hazard clean_ok : bool)
+       (getters_ok : bool)
 (** [WalletWrite::truncate_to_chain_state] with the chain state (tree sizes) of height [target] *)
 | CTcs (pre : w3) (blocks : list Z) (mn : mn3) (target : Z) (sizes : Z * Z * Z)
        (res : outcome unit perr) (post : w3) (roots_ok wit_ok : bool) (hazard clean_ok : bool)
@@ -62,7 +63,7 @@ Definition run_case (c : case) : bool :=
       | Panic, Panic => true
       | _, _ => false
       end
-  | CRoots pre res post _ _ _ _ =>
+  | CRoots pre res post _ _ _ _ _ =>
       match res with Ok _ => w3_eqb pre post | _ => false end
   | CTcs pre blocks mn target sizes res post _ _ _ _ =>
       match truncate_to_chain_state PRUNING_DEPTH blocks mn target sizes pre, res with
@@ -173,8 +174,10 @@ Definition prop_case (c : case) : bool :=
       | Err _ => false
       | Panic => false
       end
-  | CRoots pre res post roots_ok wit_ok _ _ =>
-      roots_ok && wit_ok && w3_eqb pre post && match res with Ok _ => true | _ => false end
+  | CRoots pre res post roots_ok wit_ok _ _ getters_ok =>
+      (* getters_ok: the pool's own subtree-root getter returns the inserted roots, the other pools'
+         getters are unchanged, and the plain and the transactional handle agree *)
+      getters_ok && roots_ok && wit_ok && w3_eqb pre post && match res with Ok _ => true | _ => false end
   | CTcs pre blocks mn target sizes res post roots_ok wit_ok _ _ =>
       roots_ok && wit_ok && w3_all ps_wf post &&
       match res with
@@ -252,8 +255,8 @@ Definition known_class (c : case) : N :=
       then 2%N else 0%N
   | CPut _ _ _ pre _ _ _ (Err EOtherErr) post _ _ _ hazard clean_ok =>
       if hazard && clean_ok && w3_eqb pre post then 2%N else 0%N
-  | CRoots pre (Ok _) post roots_ok wit_ok hazard clean_ok =>
-      if hazard && clean_ok && negb (roots_ok && wit_ok) && w3_eqb pre post then 2%N else 0%N
+  | CRoots pre (Ok _) post roots_ok wit_ok hazard clean_ok getters_ok =>
+      if getters_ok && hazard && clean_ok && negb (roots_ok && wit_ok) && w3_eqb pre post then 2%N else 0%N
   | CTcs pre blocks mn target sizes res post roots_ok wit_ok hazard clean_ok =>
       if hazard && clean_ok && negb (roots_ok && wit_ok) && w3_all ps_wf post
          && match res with
@@ -319,7 +322,7 @@ Definition tag_case (c : case) : N :=
        let ret := w3_any (fun s => match rt s with [] => false | _ => true end) post in
        100 + failed res + 4 * b2n pruned + 8 * b2n ooo + 16 * b2n emptyf + 32 * b2n multi
        + 64 * b2n ret + 128 * b2n real
-   | CRoots _ res _ _ _ _ _ => 600 + failed res
+   | CRoots _ res _ _ _ _ _ _ => 600 + failed res
    | CRewind pre blocks mn target res post _ _ _ _ =>
        800 + failed res
        + 4 * b2n (match zmax_list blocks with Some l => Z.ltb target l | None => false end)
